@@ -1,0 +1,27 @@
+//go:build verif
+
+package state
+
+import "github.com/syndtr/goleveldb/leveldb"
+
+// VerifClose closes the underlying LevelDB handle (verification hook: lets a
+// harness restart a node on the same state directory inside one process).
+func (s *LevelDBState) VerifClose() error {
+	s.Lock()
+	defer s.Unlock()
+	return s.stateDb.Close()
+}
+
+// VerifDB returns the LevelDB handle currently in use (verification hook).
+func (s *LevelDBState) VerifDB() *leveldb.DB {
+	s.Lock()
+	defer s.Unlock()
+	return s.stateDb
+}
+
+// VerifPath returns the path of the database currently in use (verification hook).
+func (s *LevelDBState) VerifPath() string {
+	s.Lock()
+	defer s.Unlock()
+	return s.stateDbPath
+}
